@@ -96,7 +96,47 @@ def pattern(k, size):
 STUCK = [0]
 
 
+def run_threads_case(c):
+    """T real threads allocate and free on one heap (thorough tier): validates that the heap lock
+    serialises them -- judged on the final state only"""
+    import random
+    import threading
+    bh.Arena = StubArena
+    bh.mmap = types.SimpleNamespace(PAGESIZE=c['pg'])
+    heap = bh.Heap(c['size'])
+    old = sys.getswitchinterval()
+    sys.setswitchinterval(1e-6)
+    lives = [[] for _ in range(c['threads'])]
+    errors = []
+
+    def work(t):
+        rng = random.Random(c['seed'] * 1000 + t)
+        live = lives[t]
+        try:
+            for _ in range(c['n']):
+                if live and rng.random() < 0.48:
+                    heap.free(live.pop(rng.randrange(len(live))))
+                else:
+                    live.append(heap.malloc(rng.choice([0, 1, 8, 9, 24, 64, 100, 300])))
+        except Exception as exc:
+            errors.append('%s: %s' % (type(exc).__name__, exc))
+    ths = [threading.Thread(target=work, args=(t,)) for t in range(c['threads'])]
+    for th in ths:
+        th.start()
+    for th in ths:
+        th.join(120)
+    sys.setswitchinterval(old)
+    # apply frees that found the lock taken
+    b = heap.malloc(8)
+    heap.free(b)
+    ix = arena_index(heap)
+    return dict(obs=[], snap=snapshot(heap), errors=errors, alive=[th.is_alive() for th in ths],
+                live=sorted(blk(ix, x) for l in lives for x in l))
+
+
 def run_case(c):
+    if 'threads' in c:
+        return run_threads_case(c)
     if STUCK[0] >= 2:      # the heap lock deadlocks: do not wait for every remaining case
         return dict(obs=[], snap=None, skipped=True)
     real = bool(c.get('real'))
